@@ -393,11 +393,18 @@ class RemoteWorker(Worker, metaclass=RemoteWorkerMeta):
         logger.debug('Data socket at: {}', self._socket.getsockname())
 
         logger.debug('Spinning up a frontend thread')
+        self._startup_error = None
         self._child = threading.Thread(target=self._run_frontend, name=f'{self.name} (remote front)')
         self._child.start()
         self._dead = False
         logger.debug('Waiting for the frontend thread to notify that everything is up and running...')
         self._startup_sync.wait()
+        if self._startup_error is not None:
+            # the handshake failed (server gone, connection dropped, unknown context...): no child exists
+            self._child.join()
+            self._dead = True
+            self._socket.close()
+            raise self._startup_error
         logger.details('Child created successfully, continuing with the main thread')
 
     # Parent-side, helper thread managing network communication and fetching results from the child
@@ -408,6 +415,23 @@ class RemoteWorker(Worker, metaclass=RemoteWorkerMeta):
         if self._set_names:
             setthreadtitle(f'{self.name} (remote front)', self)
 
+        try:
+            self._handshake()
+        except Exception as e:
+            logger.debug('Handshake with the server failed: {!r}', e)
+            self._startup_error = e
+            self._startup_sync.set() # wake up the constructor, it will re-raise the error
+            return
+
+        logger.debug('Received info package from the backend, signalling the main thread that everything is fine')
+        self._startup_sync.set()
+        self._fetch_results()
+        logger.debug('Closing down frontend-side socket')
+        self._socket.close()
+        logger.details('Frontend thread finished')
+
+    # Parent-side, called from frontend: everything that has to succeed before the constructor can return
+    def _handshake(self):
         logger.debug('Sending self to the server to initialize backend...')
         send_msg(self._socket, (self._context, True), comment='data: header')
         send_msg(self._socket, self, comment='data: initial remote worker') # this will spawn a backend at the remote side, via __getstate__(remote=True) and __setstate__
@@ -422,12 +446,6 @@ class RemoteWorker(Worker, metaclass=RemoteWorkerMeta):
         logger.debug('Control sockets connected: {} <==> {}', self._ctrl_sock.getsockname(), control_addr)
 
         self._host, self._pid, self._tid, self._ident = recv_msg(self._ctrl_sock, comment='ctrl: runtime info')
-        logger.debug('Received info package from the backend, signalling the main thread that everything is fine')
-        self._startup_sync.set()
-        self._fetch_results()
-        logger.debug('Closing down frontend-side socket')
-        self._socket.close()
-        logger.details('Frontend thread finished')
 
     # Parent-side, called from frontend (controlling thread)
     # Helper function implementing results fetching mechanism
